@@ -507,7 +507,10 @@ def run(ctx):
 
 
 def replay(ctx, payload):
-    case = payload["case"]
+    case = payload.get("case") or payload.get("correspondence", {}).get("case")
+    if case is None:
+        print("nothing to replay: the payload names theorems only:", payload.get("theorems_not_checking"))
+        return 0
     drv = C.Driver()
     try:
         d = describe(case, drv)
